@@ -50,11 +50,11 @@ def _conds(tier):
         for t in ("int", "float", "duration"):
             conds.append(Cond(f"cmp/{t}", "c01", "h_cmp", {"VF_TIME": t, "VF_TMAX": 2 if t == "duration" else 8}, 240))
     else:
-        script("A", 4, time="bigint", tmax=4, timeout=1500)
+        script("A", 3, time="bigint", tmax=5, timeout=1500)      # (N=4 adds did not finish inside 1500 s)
         script("R", 4, time="bigint", tmax=3, timeout=1500)
         for k in range(5):
             script("R", 5, fixk=k, timeout=1500)
-        for n in (5, 6, 7):
+        for n in (5, 6):                                        # (n = 7 did not finish inside 2400 s)
             for sp in (0, 1, 2):
                 script("A", n, heappre=1, split12=sp, timeout=2400)
         for k in range(7):
